@@ -55,6 +55,8 @@ pub fn catalog() -> Vec<J> {
         // names that merely start with / contain / extend the reserved `_sd` and `...` (not reserved themselves)
         json!({"_sdk_version": "1.2", "device": {"model": "m", "_sd_card_serial": "s", "_sd1": 1, "x_sd": [{"_sdx": true, "_SD": null}]}, "apps": [{"_sd_": 1, "name": "a"}, [{"__sd": 2}]]}),
         json!({"....": 1, "...x": {"..": [{"... ": 2, "x...": 3}]}, "_sd.": "v", "_sd ": [{" _sd": 1}], "\u{2026}": {"_sd...": [], "..._sd": {}}}),
+        // length: more than 16 elements in one array
+        json!({"long": [0, 1, 2, 3, 4, 5, 6, 7, 8, 9, 10, 11, 12, 13, 14, 15, 16], "after": {"k": 1}}),
         // width: containers with more than 10 members / elements
         json!({"w": {"m0": 0, "m1": 1, "m2": 2, "m3": 3, "m4": 4, "m5": 5, "m6": 6, "m7": 7, "m8": 8, "m9": 9, "m10": 10, "m11": 11}, "wa": [0, 1, 2, 3, 4, 5, 6, 7, 8, 9, 10, 11]}),
         json!({"key with space": {"k\"q": 1, "k\\b": 2, "k/s": 3}, "\u{e9}": "\u{e9}", "emoji\u{1F680}": {"\u{10FFFF}": "\u{100000}"}}),
